@@ -108,7 +108,7 @@ def worker(args):
     def check_state(fixture, hist, depth_full):
         # creating an object under a primary key that exists in the database but is not loaded is a
         # latent key conflict (reported at flush: C14); the session is then not a valid program state
-        if fixture.startswith('populated') and any(op[0] == 'create' and op[2] in (1, 2) for op in hist): return
+        if sx.latent_conflict(fixture, hist): return
         t = touched(hist)
         rs = reads if depth_full else [r for r in reads if relevant(env, r, t)]
         if not rs: return
